@@ -747,3 +747,179 @@ def check_store_binding(ctx, F, rule="E-FREELIST.binding"):
                                     "operation(s)): another store's free slots would be used" % len(only_ne) if only_ne else
                                     "no thread-local operation on the `bound to this store` edge"))
     return n
+
+
+def check_terminal_links(ctx, F, rule="E-FREELIST.term.link"):
+    """The free list of the dynamic terminal store, interpreted from HIR on a model store:
+      sweep   the closure `gc` passes to `retain` for a dead terminal `id`, run with the local head at P: afterwards the
+              slot `id` links to P, the head is `id` and one more terminal is counted (two dead terminals 2 and 4 with the
+              head at 7 give the chain 4 -> 2 -> 7, never a slot that links to itself);
+      keep    the `retain` predicate keeps a terminal exactly when its reference count is not 1;
+      pop     `get_edge` for a new value with the head at 4 (slot 4 -> 2): the terminal goes to slot 4 with reference count
+              2, the head becomes 2, id 4 enters the unique table and the edge carries id 4; with the head at the store's
+              length it answers OutOfMemory and changes nothing."""
+    import tables
+    from lib import hirutil as H
+    from lib.interp import ElemRef, Enum, Interp, Opaque, Return, StructVal, Unrecognised, Panic, enumerate_runs
+    from tables import OK, ERR
+    base = "oxidd_manager_index::terminal_manager::dynamic::"
+    gc = next((f for f in F.hir if f.startswith(base) and f.endswith("::gc") and "{closure" not in f), None)
+    ge = next((f for f in F.hir if f.startswith(base) and f.endswith("::get_edge") and "{closure" not in f), None)
+    if not ctx.anchor(rule, "DynamicTerminalManager::gc / get_edge", gc is not None and ge is not None):
+        return 0
+
+    class Rec:
+        def __init__(self, **kw):
+            self.__dict__.update(kw)
+
+    class D(tables.DDDomain):
+        def __init__(self):
+            super().__init__(F, tables.BDD)
+            self.inserted = []
+            self.dropped = 0
+
+        def field(self, it, v, n):
+            if isinstance(v, ElemRef):
+                v = v.get()
+            if isinstance(v, Rec) and hasattr(v, n):
+                return getattr(v, n)
+            return None
+
+        def field_assign(self, it, b, n, v):
+            if isinstance(b, ElemRef):
+                b = b.get()
+            if isinstance(b, Rec):
+                setattr(b, n, v)
+                return True
+            return False
+
+        def try_(self, it, v):
+            if isinstance(v, Enum) and v.path == ERR:
+                raise Return(v)
+            return super().try_(it, v)
+
+        def call(self, it, name, f, args_e, env, e):
+            n = f.get("n", "")
+            if n.endswith("ManuallyDrop::<T>::drop") or n.endswith("ManuallyDrop::drop"):
+                [it.ev(a, env) for a in args_e]
+                self.dropped += 1
+                return ()
+            if n.endswith("ManuallyDrop::<T>::new") or n.endswith("ManuallyDrop::new"):
+                return [it.ev(a, env) for a in args_e][0]
+            if n.endswith("AtomicU32::new") or n.endswith("::new") and "Atomic" in n:
+                return [it.ev(a, env) for a in args_e][0]
+            if n.endswith("::hash"):
+                [it.ev(a, env) for a in args_e]
+                return Opaque("hash")
+            if n.endswith("from_terminal_id"):
+                return ("edge", [it.ev(a, env) for a in args_e][0])
+            return super().call(it, name, f, args_e, env, e)
+
+        def method(self, it, m, e, env):
+            name = m.rsplit("::", 1)[-1]
+            recv = it.recv(e, env)
+            if isinstance(recv, ElemRef):
+                recv = recv.get()
+            if isinstance(recv, list):
+                if name == "get_unchecked":
+                    (i,) = it.args(e, env)
+                    if not (isinstance(i, int) and 0 <= i < len(recv)):
+                        raise Panic("get_unchecked(%r) outside the store" % (i,))
+                    return recv[i]
+                if name == "get" and len(recv) == 1 and "UnsafeCell" in m:
+                    return ElemRef(recv, 0)
+                if name == "len":
+                    return len(recv)
+            if isinstance(recv, Rec) and name == "lock":
+                return recv.inner
+            if isinstance(recv, Rec) and name == "find_or_find_insert_slot":
+                [it.ev(a, env) for a in e["a"][:1]]
+                return Enum(ERR, [Opaque("table slot")])
+            if isinstance(recv, Rec) and name == "insert_in_slot_unchecked":
+                self.inserted.append(it.args(e, env)[-1])
+                return ()
+            if isinstance(recv, int) and name == "load":
+                it.args(e, env)
+                return recv
+            return super().method(it, m, e, env)
+    fails = []
+    n = 0
+    # ---- closures of gc ------------------------------------------------------------------------------------------------
+    ret = [x for x in H.walk(F.hir[gc]["body"]) if x.get("k") == "mcall" and x.get("name") == "retain"]
+    if not ctx.anchor(rule, "gc: one retain(keep, sweep) call with two closures",
+                      len(ret) == 1 and len(ret[0]["a"]) == 2 and all(a.get("k") == "closure" for a in ret[0]["a"])):
+        return 0
+    keep, sweep = ret[0]["a"]
+
+    def store(n_):
+        return [[Rec(next_free=100 + i, node=Rec(rc=2, value=Opaque("v%d" % i)))] for i in range(n_)]
+
+    def run_closure(clo, me, mut, arg):
+        def go(it):
+            env = {"$consts": {}, "$fn": gc, "$mut": mut, "self": me}
+            for k in mut:
+                env[k] = mut[k]
+            if len(clo.get("params", [])) != 1 or not it.match(clo["params"][0], arg, env):
+                raise Unrecognised("closure parameter")
+            return it.ev(clo["body"], env)
+        outs = list(enumerate_runs(lambda o: Interp(F, D(), o), go))
+        if len(outs) != 1 or outs[0][1][0] != "ok":
+            raise Unrecognised(repr(outs[0][1] if outs else None))
+        return outs[0][1][1]
+    try:
+        st = store(6)
+        me = Rec(store=st)
+        mut = {"next_free": 7, "collected": 0}
+        n += 2
+        run_closure(sweep, me, mut, 2)
+        run_closure(sweep, me, mut, 4)
+        got = (st[2][0].next_free, st[4][0].next_free, mut.get("next_free"), mut.get("collected"))
+        if got != (7, 2, 4, 2):
+            fails.append("sweeping the dead terminals 2 and 4 with the head at 7 gives slot 2 -> %r, slot 4 -> %r, head %r, %r collected; expected "
+                         "4 -> 2 -> 7 with head 4 and 2 collected" % got)
+        for rc, want in ((1, False), (2, True), (3, True)):
+            n += 1
+            st = store(3)
+            st[1][0].node.rc = rc
+            r = run_closure(keep, Rec(store=st), {}, 1)
+            if r is not want:
+                fails.append("the retain predicate answers %r for a terminal with reference count %d" % (r, rc))
+    except Unrecognised as u:
+        fails.append("gc closures not interpretable: %s" % u)
+    except Panic as p:
+        fails.append("gc closures panic: %s" % p.msg)
+    # ---- get_edge: pop ---------------------------------------------------------------------------------------------------
+    try:
+        for head in (4, 6):
+            n += 1
+            st = store(6)
+            st[4][0].next_free = 2
+            state = Rec(next_free=head, unique_table=Rec())
+            me = Rec(store=st, state=Rec(inner=state))
+            holder = {}
+
+            def mk(o):
+                holder["d"] = D()
+                return Interp(F, holder["d"], o)
+            outs = list(enumerate_runs(mk, lambda it: it.call_fn(ge, [me, Opaque("terminal")])))
+            if len(outs) != 1 or outs[0][1][0] != "ok":
+                raise Unrecognised(repr(outs[0][1] if outs else None))
+            val = outs[0][1][1]
+            if head == 6:
+                if not (isinstance(val, Enum) and val.path == ERR) or state.next_free != 6 or holder["d"].inserted:
+                    fails.append("get_edge with an exhausted store yields %r (head %r, table insertions %r), expected Err(OutOfMemory) and no change"
+                                 % (val, state.next_free, holder["d"].inserted))
+                continue
+            node = st[4][0].node
+            rc = node.fields.get("rc") if isinstance(node, StructVal) else getattr(node, "rc", None)
+            ok = isinstance(val, Enum) and val.path == OK and val.args[0] == ("edge", 4) and state.next_free == 2 and holder["d"].inserted == [4] and rc == 2
+            if not ok:
+                fails.append("get_edge of a new value with the head at 4 (-> 2) yields %r, head %r, table insertions %r, reference count %r; expected "
+                             "the edge of id 4, head 2, insertion of 4, count 2" % (val, state.next_free, holder["d"].inserted, rc))
+    except Unrecognised as u:
+        fails.append("get_edge not interpretable: %s" % u)
+    except Panic as p:
+        fails.append("get_edge panics: %s" % p.msg)
+    ctx.ob(rule, rule, not fails, "free list of the dynamic terminal store (%s): %s" % (F.where(gc), " || ".join(fails[:3]) if fails else
+           "sweep links dead slots in front of the head, get_edge pops the head, OutOfMemory exactly at the end of the store"))
+    return n
